@@ -128,6 +128,10 @@ class InttypeStream(runner.Stream):
         dom = domain(a, b)
         if ans in ("panic", "abort", "hang"):
             return "the front end / code generator panicked"
+        if ans.startswith(("named-differs", "nested-differs")):
+            # harness/src/inttype.rs: the same constraint with named numbers outside of the range, and as the
+            # element of a SEQUENCE OF / SET OF component or alternative
+            return "type / attribute of the same INTEGER constraint depend on where it stands: " + ans[:300]
         if ans.startswith("vconst-differs"):
             # harness/src/inttype.rs: the same constraint on a value assignment `k INTEGER (a..b) ::= ..`
             return "the constant of a value assignment governed by the constraint has another type than a component: " + ans
